@@ -97,7 +97,8 @@ type sfwRef struct {
 type refFlow struct {
 	incoming     bool
 	lastPass     time.Time
-	rulesChanged bool // a reload with different rules happened since the last pass
+	to           time.Duration // idle timeout in force when lastPass was set
+	rulesChanged bool          // a reload with different rules happened since the last pass
 }
 
 func (m *sfwRef) timeout(p uint8) time.Duration {
@@ -255,6 +256,9 @@ func (m *sfwRef) allowed(fp firewall.Packet, incoming bool, p *fwPeer) bool {
 type sfwWorld struct {
 	*simWorld
 	focus   string
+	// fullRange: this run's rule sets may hold "every port by range" rules (65535 table entries each: kept to a
+	// minority of runs so that the others stay fast)
+	fullRange bool
 	V       *simNode
 	peers   []*fwPeer
 	ref     *sfwRef
@@ -304,6 +308,10 @@ func (w *sfwWorld) genRule(incoming bool) fwRule {
 	default:
 		lo := []int{50, 80, 1000, 1003}[tp.Choose(4)]
 		r.Port = fmt.Sprintf("%d-%d", lo, lo+tp.Choose(12))
+		if w.fullRange && tp.Chance(1, 4) {
+			// every port by range: still a port rule (no fragments, nothing without ports), unlike "any"
+			r.Port = []string{"1-65535", "1-65534", "2-65535"}[tp.Choose(3)]
+		}
 	}
 	if r.Proto == "icmp" {
 		r.Port = "any"
@@ -474,6 +482,7 @@ func runSFW(rc *sk.RunCtx, focus string) {
 	tp := rc.Tape
 	sw := newSimWorld(rc)
 	w := &sfwWorld{simWorld: sw, focus: focus, stats: map[string]int{}, lastPass: map[firewall.Packet]time.Time{}, seenIn: map[uint64]bool{}, seenOut: map[uint64]bool{}}
+	w.fullRange = tp.Chance(1, 16)
 	defer sw.stopAll()
 	sw.faults.baseLatency = time.Millisecond
 	sw.maxSteps = 3_000_000 // long idle gaps cost many (cheap) timer-tick events
@@ -670,7 +679,15 @@ func runSFW(rc *sk.RunCtx, focus string) {
 			sw.runUntil(sw.now + d)
 			rc.Count("ev.clock_advance", 1)
 		case 2: // reload
-			switch tp.Choose(6) {
+			switch tp.Choose(7) {
+			case 6: // same rules, other idle timeouts: tracked flows stay tracked, the new timeouts apply from their next packet
+				ref.tcpT = time.Duration(1+tp.Choose(20)) * time.Second
+				ref.udpT = time.Duration(1+tp.Choose(10)) * time.Second
+				ref.defT = time.Duration(1+tp.Choose(15)) * time.Second
+				deepMerge(w.baseCfg, map[string]any{"firewall": map[string]any{"conntrack": map[string]any{"tcp_timeout": ref.tcpT.String(), "udp_timeout": ref.udpT.String(), "default_timeout": ref.defT.String()}}})
+				w.forceChanged = true // a new firewall object is built: the rules version moves on
+				w.applyRules(ref.in, ref.out, false)
+				rc.Count("op.reload_conntrack_timeouts", 1)
 			case 5: // the node's certificate is re-issued (same key, same networks) with another set of unsafe networks
 				nu := [][]netip.Prefix{nil, {netip.MustParsePrefix("192.168.50.0/24")}, {netip.MustParsePrefix("192.168.50.0/24"), netip.MustParsePrefix("192.168.60.0/24")},
 					{netip.MustParsePrefix("192.168.60.0/24")}}[tp.Choose(4)]
@@ -816,7 +833,9 @@ func (w *sfwWorld) judge(fp firewall.Packet, incoming bool, p *fwPeer, act func(
 	flowLive, flowSurely, origStillAllowed := false, false, false
 	if fl != nil {
 		idle = now.Sub(fl.lastPass)
-		to := ref.timeout(fp.Protocol)
+		// the deadline of a tracked flow was set when its last packet passed, with the timeout in force then (a later
+		// reload that changes firewall.conntrack.* applies from the flow's next packet on)
+		to := fl.to
 		flowLive = idle <= to+ref.cacheWindow
 		flowSurely = idle < to
 		origStillAllowed = ref.allowed(fp, fl.incoming, p)
@@ -852,11 +871,11 @@ func (w *sfwWorld) judge(fp firewall.Packet, incoming bool, p *fwPeer, act func(
 		}
 		w.lastPass[fp] = now
 		if fl != nil && flowSurely && origStillAllowed {
-			fl.lastPass = now
+			fl.lastPass, fl.to = now, ref.timeout(fp.Protocol)
 			fl.rulesChanged = false
 			w.stats["probe.passed_by_rule_with_flow"]++
 		} else {
-			ref.flows[fp] = &refFlow{incoming: incoming, lastPass: now}
+			ref.flows[fp] = &refFlow{incoming: incoming, lastPass: now, to: ref.timeout(fp.Protocol)}
 			w.stats["probe.passed_by_rule"]++
 		}
 		return
@@ -885,12 +904,12 @@ func (w *sfwWorld) judge(fp firewall.Packet, incoming bool, p *fwPeer, act func(
 		case !origStillAllowed && (w.cache == nil || fl.rulesChanged):
 			if w.cache != nil && idle <= ref.cacheWindow {
 				// the routine-local cache may legitimately answer for one cache window
-				fl.lastPass = now
+				fl.lastPass, fl.to = now, ref.timeout(fp.Protocol)
 				return
 			}
 			w.fail("C19", "stale-flow-honoured", "%s: no rule allows it; its flow was created by a packet in direction incoming=%v that the current rules no longer allow, yet it passed\nin rules:  %v\nout rules: %v", desc, fl.incoming, ref.in, ref.out)
 		default:
-			fl.lastPass = now
+			fl.lastPass, fl.to = now, ref.timeout(fp.Protocol)
 			fl.rulesChanged = false
 			w.stats["probe.passed_by_tracking"]++
 		}
